@@ -300,6 +300,7 @@ func c02V1(c *h.Ctx, ctor string, mk func() (*ntlmv1.NTLMv1, error), want []byte
 	var g []byte
 	if p := h.Guard(func() { g, err = n.Hash() }); p != "" {
 		c.Fail("ntlmv1.NTLMv1.Hash", "panic", p, smp)
+	} else if c.Retain("ntlmv1.NTLMv1.Hash", g, smp); false {
 	} else if err != nil || !bytes.Equal(g, want) {
 		c.Fail("ntlmv1.NTLMv1.Hash", "desl", fmt.Sprintf("spec %x code %x (%v)", want, g, err), smp)
 	}
